@@ -268,7 +268,6 @@ func (m *Msg) Pack(b []byte, compression bool, size int) (int, error) {
 		size = 512
 	}
 
-	var msgHdr = m.Header
 	off := 12
 	if len(b) < off {
 		return 0, newSectionErr("header", ErrSmallBuffer)
@@ -289,7 +288,8 @@ func (m *Msg) Pack(b []byte, compression bool, size int) (int, error) {
 	}
 	for _, q := range m.Questions {
 		if size > 0 && off+q.Len() > size {
-			msgHdr.Truncated = true
+			h.bits |= headerBitTC
+			h.questions--
 			continue
 		}
 		var err error
@@ -300,7 +300,8 @@ func (m *Msg) Pack(b []byte, compression bool, size int) (int, error) {
 
 	for _, r := range m.Answers {
 		if size > 0 && off+r.packLen() > size {
-			msgHdr.Truncated = true
+			h.bits |= headerBitTC
+			h.answers--
 			continue
 		}
 		var err error
@@ -310,7 +311,8 @@ func (m *Msg) Pack(b []byte, compression bool, size int) (int, error) {
 	}
 	for _, r := range m.Authorities {
 		if size > 0 && off+r.packLen() > size {
-			msgHdr.Truncated = true
+			h.bits |= headerBitTC
+			h.authorities--
 			continue
 		}
 		var err error
@@ -320,7 +322,8 @@ func (m *Msg) Pack(b []byte, compression bool, size int) (int, error) {
 	}
 	for _, r := range m.Additionals {
 		if size > 0 && off+r.packLen() > size {
-			msgHdr.Truncated = true
+			h.bits |= headerBitTC
+			h.additionals--
 			continue
 		}
 		var err error
